@@ -331,7 +331,7 @@ fn knob_simplifications(k: &Knobs) -> Vec<Knobs> {
 }
 
 /// All one-step simplifications of `case`, cheapest / most aggressive first.
-fn candidates(case: &Case) -> Vec<Case> {
+pub fn candidates(case: &Case) -> Vec<Case> {
     let mut out: Vec<Case> = vec![];
     let n = case.ops.len();
     // drop a suffix after the first solve op (keep at least one op)
@@ -477,6 +477,40 @@ pub fn shrink(case: &Case, violation: &Violation, check: &mut dyn FnMut(&Case) -
                 break;
             }
             if cand == best || !valid(&cand) {
+                continue;
+            }
+            evals += 1;
+            if let Some(v) = check(&cand) {
+                if v.class == best_v.class {
+                    best = cand;
+                    best_v = v;
+                    progress = true;
+                    break;
+                }
+            }
+        }
+    }
+    (best, best_v, evals)
+}
+
+/// The same greedy loop over cases of any scenario kind.
+pub fn shrink_any(
+    case: &crate::anycase::AnyCase,
+    violation: &Violation,
+    check: &mut dyn FnMut(&crate::anycase::AnyCase) -> Option<Violation>,
+    max_evals: usize,
+) -> (crate::anycase::AnyCase, Violation, usize) {
+    let mut best = case.clone();
+    let mut best_v = violation.clone();
+    let mut evals = 0usize;
+    let mut progress = true;
+    while progress && evals < max_evals {
+        progress = false;
+        for cand in best.candidates() {
+            if evals >= max_evals {
+                break;
+            }
+            if cand == best {
                 continue;
             }
             evals += 1;
